@@ -1,1 +1,2 @@
-// exact models
+//! Exact reference models (each a few dozen lines; the trusted base together with refhash/spec).
+pub mod hll;
